@@ -330,6 +330,22 @@ def matches_known(kf, pid, hname, vid, model):
         return False
 
 
+COMPAT_FILES = {"graph_wiring.cpp": "src/hgraph/types/graph_wiring.cpp", "reduce_node.cpp": "src/hgraph/runtime/reduce_node.cpp"}
+
+
+def repo_relative(path):
+    """Repository-relative name of a source file recorded in debug info.  Cached objects are shared between the
+    repository and scratch worktrees of it (content-keyed), so the recorded directory may be any checkout root."""
+    p = os.path.normpath(path.replace("//", "/"))
+    for marker in ("/src/hgraph/", "/include/hgraph/", "/include/third_party/"):
+        i = p.find(marker)
+        if i >= 0:
+            return p[i + 1:]
+    if "/verifcc_" in p and os.path.basename(p) in COMPAT_FILES:
+        return COMPAT_FILES[os.path.basename(p)]
+    return None
+
+
 def source_file_of(path):
     p = os.path.normpath(path.replace("//", "/"))
     return p
@@ -477,9 +493,9 @@ def check_property(pid, tier, harnesses, seed=0):
                 cov["samples"].append(dict(harness=h["name"], inputs=s["model"], trace=s["trace"][:30], ir_steps=s["steps"]))
             repo_funcs = []
             for name, (file, n, cnt) in m["functions"].items():
-                f = source_file_of(file)
-                if f.startswith(REPO + "/") or "/repo/" in f:
-                    repo_funcs.append((f.split("/repo/")[-1], name, n, cnt))
+                rel = repo_relative(file)
+                if rel:
+                    repo_funcs.append((rel, name, n, cnt))
             by_file = {}
             for f, name, n, cnt in repo_funcs:
                 e = by_file.setdefault(f, dict(functions=0, ir_instructions=0, calls=0))
